@@ -5,6 +5,7 @@ package vchan
 import (
 	"fmt"
 	"reflect"
+	"sync"
 
 	"github.com/wollac/iota-crypto-demo/pkg/verifshim/vsched"
 )
@@ -119,10 +120,28 @@ func (c *Uint64) Cap() int { return c.cap }
 
 func (c *Uint64) ready() bool           { return c.closed || len(c.buf) > 0 }
 func (c *Uint64) realChan() interface{} { return c.real }
-func (c *Uint64) take() {
+func (c *Uint64) take() (interface{}, bool) {
 	if len(c.buf) > 0 {
+		v := c.buf[0]
 		c.buf = c.buf[1:]
+		return v, true
 	}
+	return uint64(0), false
+}
+
+// Zero is the zero value of the element type (used by rewritten `case v := <-ch` clauses).
+func (c *Uint64) Zero() uint64 { return 0 }
+
+// RecvInto is `case *dst, *ok = <-c` of a select statement (nil pointers: value not wanted).
+func (c *Uint64) RecvInto(dst *uint64, ok *bool) Case {
+	return Case{ch: c, store: func(v interface{}, k bool) {
+		if dst != nil {
+			*dst, _ = v.(uint64)
+		}
+		if ok != nil {
+			*ok = k
+		}
+	}}
 }
 
 // ---------------- chan struct{} ----------------
@@ -130,7 +149,9 @@ func (c *Uint64) take() {
 // Struct is a chan struct{}.
 type Struct struct {
 	core
-	real chan struct{}
+	real    chan struct{}
+	foreign <-chan struct{} // set for wrappers of channels the code under test did not make (ctx.Done())
+	fname   string
 }
 
 // MakeStruct is make(chan struct{}, n).
@@ -147,6 +168,9 @@ func MakeStruct(n ...int) *Struct {
 }
 
 func (c *Struct) Send(struct{}) {
+	if c.foreign != nil {
+		panic("vchan: send on a receive-only channel")
+	}
 	if !vsched.Controlled() {
 		c.real <- struct{}{}
 		return
@@ -165,11 +189,27 @@ func (c *Struct) Send(struct{}) {
 }
 
 func (c *Struct) Recv2() (struct{}, bool) {
+	if c == nil { // receive from a nil channel blocks forever
+		if !vsched.Controlled() {
+			select {}
+		}
+		vsched.Point(&vsched.Op{Kind: "chan.Recv", Obj: "nil-chan", Enabled: func() bool { return false }})
+		return struct{}{}, false
+	}
 	if !vsched.Controlled() {
+		if c.foreign != nil {
+			v, ok := <-c.foreign
+			return v, ok
+		}
 		v, ok := <-c.real
 		return v, ok
 	}
 	if vsched.Killed() {
+		return struct{}{}, false
+	}
+	if c.foreign != nil {
+		vsched.Point(&vsched.Op{Kind: "chan.Recv", Obj: c.fname, Write: false, Enabled: c.ready})
+		vsched.Observe("recv foreign closed")
 		return struct{}{}, false
 	}
 	vsched.Point(&vsched.Op{Kind: "chan.Recv", Obj: c.name(c), Write: true, Enabled: c.ready})
@@ -185,6 +225,9 @@ func (c *Struct) Recv2() (struct{}, bool) {
 func (c *Struct) Recv() struct{} { v, _ := c.Recv2(); return v }
 
 func (c *Struct) Close() {
+	if c.foreign != nil {
+		panic("vchan: close of a receive-only channel")
+	}
 	if !vsched.Controlled() {
 		close(c.real)
 		return
@@ -199,12 +242,71 @@ func (c *Struct) Close() {
 	c.closed = true
 }
 
-func (c *Struct) ready() bool           { return c.closed || c.n > 0 }
-func (c *Struct) realChan() interface{} { return c.real }
-func (c *Struct) take() {
-	if c.n > 0 {
-		c.n--
+func (c *Struct) ready() bool {
+	if c == nil {
+		return false // nil channel: never ready
 	}
+	if c.foreign != nil {
+		f, ok := foreignReady[c.foreign]
+		if !ok {
+			Unsupported = "receive from a foreign channel the harness does not control"
+			return false
+		}
+		return *f
+	}
+	return c.closed || c.n > 0
+}
+func (c *Struct) realChan() interface{} {
+	if c == nil {
+		return (<-chan struct{})(nil)
+	}
+	if c.foreign != nil {
+		return c.foreign
+	}
+	return c.real
+}
+func (c *Struct) take() (interface{}, bool) {
+	if c != nil && c.foreign == nil && c.n > 0 {
+		c.n--
+		return struct{}{}, true
+	}
+	return struct{}{}, false
+}
+
+// Zero is the zero value of the element type (used by rewritten `case v := <-ch` clauses).
+func (c *Struct) Zero() struct{} { return struct{}{} }
+
+// RecvInto is `case *dst, *ok = <-c` of a select statement (nil pointers: value not wanted).
+func (c *Struct) RecvInto(dst *struct{}, ok *bool) Case {
+	return Case{ch: c, store: func(_ interface{}, k bool) {
+		if ok != nil {
+			*ok = k
+		}
+	}}
+}
+
+var foreignWrap = map[<-chan struct{}]*Struct{}
+
+// Foreign wraps a channel that the code under test did not make (ctx.Done()) so that it can be stored, passed and
+// received from like the shim channels. The same channel always gives the same wrapper.
+func Foreign(ch <-chan struct{}) *Struct {
+	if ch == nil {
+		return nil
+	}
+	if !vsched.Controlled() {
+		return &Struct{foreign: ch, fname: "foreign"} // free-running: nothing to name, nothing to remember
+	}
+	foreignMu.Lock()
+	defer foreignMu.Unlock()
+	if w, ok := foreignWrap[ch]; ok {
+		return w
+	}
+	w := &Struct{foreign: ch, fname: "foreign?"}
+	if n, ok := foreignName[ch]; ok {
+		w.fname = n
+	}
+	foreignWrap[ch] = w
+	return w
 }
 
 // ---------------- select ----------------
@@ -212,7 +314,7 @@ func (c *Struct) take() {
 type recvable interface {
 	ready() bool
 	realChan() interface{}
-	take()
+	take() (interface{}, bool)
 }
 
 // Case is one case of a select statement.
@@ -250,6 +352,7 @@ type Case struct {
 	snd     sendable
 	val     interface{}
 	ch      recvable        // shim channel receive
+	store   func(v interface{}, ok bool)
 	foreign <-chan struct{} // receive from a channel not created by the code under test (ctx.Done())
 	deflt   bool
 }
@@ -270,16 +373,30 @@ func ForeignRecv(ch <-chan struct{}) Case { return Case{foreign: ch} }
 func Default() Case { return Case{deflt: true} }
 
 // foreign channels known to the harness: readiness is a scheduler-visible flag
-var foreignReady = map[<-chan struct{}]*bool{}
+var (
+	foreignMu    sync.Mutex
+	foreignReady = map[<-chan struct{}]*bool{}
+	foreignName  = map[<-chan struct{}]string{}
+)
 
 // RegisterForeign makes ch known to the controlled scheduler; *ready says whether a receive would succeed.
 func RegisterForeign(ch <-chan struct{}, ready *bool) {
+	foreignMu.Lock()
+	defer foreignMu.Unlock()
 	foreignReady[ch] = ready
-	vsched.RegisterObj(fmt.Sprintf("foreign%d", len(foreignReady)), func() string { return fmt.Sprint(*ready) })
+	n := fmt.Sprintf("foreign%d", len(foreignReady))
+	foreignName[ch] = n
+	vsched.RegisterObj(n, func() string { return fmt.Sprint(*ready) })
 }
 
 // ResetForeign forgets all registered foreign channels.
-func ResetForeign() { foreignReady = map[<-chan struct{}]*bool{} }
+func ResetForeign() {
+	foreignMu.Lock()
+	defer foreignMu.Unlock()
+	foreignReady = map[<-chan struct{}]*bool{}
+	foreignName = map[<-chan struct{}]string{}
+	foreignWrap = map[<-chan struct{}]*Struct{}
+}
 
 // Unsupported is set when controlled code used a construct the shim cannot model (the check then reports
 // exhaustive:false instead of a verdict).
@@ -302,7 +419,14 @@ func Select(cases ...Case) int {
 				rc[i] = reflect.SelectCase{Dir: reflect.SelectRecv, Chan: reflect.ValueOf(c.foreign)}
 			}
 		}
-		i, _, _ := reflect.Select(rc)
+		i, rv, rok := reflect.Select(rc)
+		if cases[i].store != nil {
+			var v interface{}
+			if rv.IsValid() {
+				v = rv.Interface()
+			}
+			cases[i].store(v, rok)
+		}
 		return i
 	}
 	if vsched.Killed() {
@@ -361,7 +485,11 @@ func Select(cases ...Case) int {
 	if cases[i].snd != nil {
 		cases[i].snd.doSend(cases[i].val)
 	} else if cases[i].ch != nil {
-		cases[i].ch.take()
+		v, ok := cases[i].ch.take()
+		if cases[i].store != nil {
+			cases[i].store(v, ok)
+		}
+		vsched.Observe("select recv", v, ok)
 	}
 	vsched.Log("select case %d", i)
 	vsched.Observe("select", i)
